@@ -301,6 +301,13 @@ def big_ef_shapes(rng, tier):
         out.append((u, xs))
     return out
 
+def exact_span_seq(span, j=1):
+    """(universe, values): 64 dense 1024-blocks of ones in the high bits (65536 zeros-valued elements, low width 0), then a
+    final partial block of 32*j + 1 elements whose first and last high-bit positions are exactly `span` apart"""
+    m = 32 * j + 1
+    xs = [0] * 65536 + [1] * (m - 1) + [1 + span - (m - 1)]
+    return xs[-1] + 1, xs
+
 def lst(xs): return ','.join(map(str, xs)) if xs else '-'
 
 def ef_queries(rng, oid, u, xs, nq, rank=True):
@@ -350,6 +357,16 @@ def gen_C04(rng, tier):
             for m in ('rank', 'predecessor', 'successor'): L.append('q 1 %s %d' % (m, p_))
         for k in (0, 1000, 1056, n - 3): L.append('it 1 iter %d %s' % (k, ','.join(['n'] * 40)))
         for v in [xs[0], xs[300], xs[1056], xs[n - 1], xs[n // 2] + 1]: L.append('q 1 binsearch %d' % v)
+        cases.append(L)
+    # final partial block of 32j+1 ones spanning exactly 65535 / 65536 / 65537 high-bit positions (dense/sparse boundary)
+    for span, j in ([(65536, 1)] if tier == 'quick' else [(65535, 1), (65536, 1), (65537, 1), (65536, 3)]):
+        u, xs = exact_span_seq(span, j); n = len(xs)
+        L = ['case C04-span-%d-%d n=%d' % (span, j, n), 'new 0 efb new %d %d' % (u, n), 'm 0 extend %s' % lst(xs), 'new 1 ef build 0 1']
+        for k in (0, 65535, 65536, n - 2, n - 1, n): L.append('q 1 select %d' % k); L.append('q 1 delta %d' % k)
+        for p_ in (0, 1, 2, xs[-1] - 1, xs[-1], u): 
+            for m_ in ('rank', 'predecessor', 'successor'): L.append('q 1 %s %d' % (m_, p_))
+        for k in (n - 1, n - 2, n - 34, 65535): L.append('it 1 iter %d %s' % (k, ','.join(['n'] * 4)))
+        L.append('q 1 binsearch %d' % xs[-1]); L.append('q 1 binsearch 1')
         cases.append(L)
     # from_bits entry point
     for ci in range(6 if tier == 'quick' else 30):
@@ -450,6 +467,17 @@ def gen_C05(rng, tier, want='C05'):
             for k in (0, 1, (b - a) // 2, b - a - 1, b - a): L.append('q 0 quantile %d..%d %d' % (a, b, k))
         L.append('q 0 intersect 0..700,121000..121700 1'); L.append('q 0 intersect 1000..1700,1500..2400,%d..%d 2' % (n - 600, n))
     cases.append(L)
+    for span in ([65536] if tier == 'quick' else [65535, 65536, 65537]):
+        n = 70000; xs = [rng.randrange(0, 2) for _ in range(n)]
+        for i in range(1000, 1032): xs[i] = 2
+        xs[1000 + span] = 2
+        L = ['case %s-span-wmd-%d n=%d' % (want, span, n), 'new 0 wmd new %s' % lst(xs), 'q 0 len']
+        if want == 'C05':
+            for k in (0, 1, 31, 32, 33): L.append('q 0 select %d 2' % k)
+            for p_ in (1000, 1031, 1032, 1000 + span, 1001 + span, n): L.append('q 0 rank %d 2' % p_); L.append('q 0 access %d' % min(p_, n - 1))
+        else:
+            L.append('q 0 quantile 1000..%d %d' % (1001 + span, span)); L.append('q 0 quantile 990..1040 49'); L.append('q 0 intersect 1000..1032,%d..%d 1' % (999 + span, 1002 + span))
+        cases.append(L)
     for b in ('wmr', 'wmd', 'wmb'):     # the empty sequence is rejected
         cases.append(['case %s-empty-%s' % (want, b), 'new 0 %s new -' % b, 'q 0 len', 'new 1 cv new 5', 'new 2 %s from_cv 1' % b, 'q 2 len'])
     return cases
@@ -553,7 +581,11 @@ def structure_zoo(rng, tier, small=False):
         return [rng.randrange(0, hi) for _ in range(k)]
     n, v = pick_bits(rng, tier, n=nbits()); L.append('new 0 bv from_bits %s' % bits_lit(n, v)); kinds[0] = 'bv'
     n, v = pick_bits(rng, tier, n=nbits()); L.append('new 1 r9 new %s %d %d' % (bits_lit(n, v), rng.randrange(2), rng.randrange(2))); kinds[1] = 'r9'
-    n, v = pick_bits(rng, tier, n=nbits()); L.append('new 2 da new %s %d %d' % (bits_lit(n, v), rng.randrange(2), rng.randrange(2))); kinds[2] = 'da'
+    n, v = pick_bits(rng, tier, n=nbits())
+    if not small and rng.random() < 0.5:
+        n = 70000 + rng.randrange(0, 64); v = 1 | (1 << (n - 1)) | (rng.getrandbits(3) << 40000)
+        if rng.random() < 0.5: v = ((1 << n) - 1) ^ v
+    L.append('new 2 da new %s %d %d' % (bits_lit(n, v), rng.randrange(2), rng.randrange(2))); kinds[2] = 'da'
     n, v = pick_bits(rng, tier, n=nbits()); L.append('new 3 sa new %s %d' % (bits_lit(n, v), rng.randrange(2))); kinds[3] = 'sa'
     u, cap, xs = mono_seq(rng, tier, rng.randrange(100))
     if small: xs = xs[:6]
@@ -768,6 +800,12 @@ def gen_C12(rng, tier):
         for i in sorted(set([0, at - 1, at, at + 1, at + 1023, at + 1024, at + 2048, 1023, 1024, 42211 % n, n - 1, n] + [rng.randrange(0, n) for _ in range(25)])): L.append('q 0 access %d' % i)
         L.append('q 0 size_in_bytes')
         cases.append(L)
+    for span, j in ([(65536, 1)] if tier == 'quick' else [(65535, 1), (65536, 1), (65537, 1), (65536, 2)]):
+        u, ps = exact_span_seq(span, j); n = len(ps)
+        xs = [ps[0]] + [ps[i] - ps[i - 1] for i in range(1, n)]
+        L = ['case C12-span-%d-%d n=%d' % (span, j, n), 'new 0 ps from_slice %s' % lst(xs), 'q 0 len', 'q 0 sum']
+        for i in (0, 65535, 65536, 65537, n - 3, n - 2, n - 1, n): L.append('q 0 access %d' % i)
+        cases.append(L)
     for ci in range(4):
         xs = [rng.getrandbits(8) for _ in range(rng.choice([1, 70]))]; ys = [rng.getrandbits(32) for _ in range(rng.choice([1, 70]))]
         cases.append(['case C12-types-%d' % ci, 'new 0 ps from_slice_u8 %s' % lst(xs), 'q 0 len', 'q 0 sum', 'q 0 access 0',
@@ -787,6 +825,13 @@ def gen_C13(rng, tier):
             L.append('q %d sched %s' % (oid, rng.choice(scheds)))
             L.append('q %d wfail %s %s' % (oid, 'all' if ci % 2 == 0 else lst(list(range(0, 30)) + sorted(rng.sample(range(0, 200000), 40))), rng.choice(['-'] + scheds)))
         cases.append(L)
+    n = 600000 + rng.randrange(0, 64); v = rand_bits(rng, n, 0.3)
+    L = ['case C13-large-interrupted', 'new 0 bv from_bits %s' % bits_lit(n, v), 'new 1 cv from_int 5 70000 9']
+    for oid in (0, 1):
+        L.append('q %d wfail %s i,c70000' % (oid, lst([0, 8, 65536, 65544, 70000, 74000, 80000, 10**7])))
+        L.append('q %d wfail %s c65536,i' % (oid, lst([65535, 65536, 65537, 131072, 10**7])))
+        L.append('q %d sched i,c65536' % oid); L.append('q %d trunc %s' % (oid, lst([0, 7, 8, 65536, 65544, 74999, 75000])))
+    cases.append(L)
     return cases
 
 def gen_C14(rng, tier):
@@ -888,6 +933,14 @@ def gen_C17(rng, tier):
         cases.append(L)
     L = ['case C17-empty-ef', 'new 0 efb new 20 3', 'new 1 ef build 0', 'it 1 iter 0 n,n,h', 'it 1 iter 1 n', 'new 2 ef default', 'it 2 iter 0 n,n']
     cases.append(L)
+    # iterators started near the end of a large sequence whose last high-bit block is partial with a span of exactly 2^16
+    for span in ([65536] if tier == 'quick' else [65535, 65536, 65537]):
+        u, xs = exact_span_seq(span); n = len(xs)
+        L = ['case C17-span-%d' % span, 'new 0 efb new %d %d' % (u, n), 'm 0 extend %s' % lst(xs), 'new 1 ef build 0']
+        for k in (n - 1, n - 2, n - 33, n - 34, 65535, n): L.append('it 1 iter %d n,h,n,n,h' % k)
+        ys = [xs[0]] + [xs[i] - xs[i - 1] for i in range(1, n)]
+        L += ['new 2 ps from_slice %s' % lst(ys), 'q 2 access %d' % (n - 1), 'q 2 access %d' % (n - 2)]
+        cases.append(L)
     for ci in range(80 if tier == 'quick' else 500):
         n, v = pick_bits(rng, tier, n=rng.choice([0, 1, 3, 63, 64, 65, 128, 129, 192, 200, 1000, 5000]))
         L = ['case C17-unary-%d n=%d' % (ci, n), 'new 0 bv from_bits %s' % bits_lit(n, v)]
